@@ -1,5 +1,7 @@
 import McpModel.Base.Proto
 import McpModel.Conn.Render
+import McpModel.SessClose.Monitor
+import McpModel.SessClose.Wire
 /-!
 Driver for E1: replays the schedule recorded from the real `jsonrpc2.Connection` on the model, one
 atomic section per record, and compares the complete observable state after every step
@@ -147,7 +149,7 @@ def Clause.text : Clause → String
   | .c01Blocked n => s!"C01: call c{n} is still blocked in Await although the connection has terminated (done closed)"
   | .c01Late n r => s!"C01: call c{n} started after termination ended with {rtokStr r}, not with a closed-connection error"
   | .c01RegAfterRx oc => s!"C01: call(s) {",".intercalate (oc.map fun n => s!"c{n}")} are registered although the reader has failed: nothing can complete them any more (a call started after the connection broke must fail at once)"
-  | .c01StillRegistered n => s!"C01: call c{n} has returned to its caller but is still registered: a later EOF/Close completes it a second time"
+  | .c01StillRegistered n => s!"C01: call c{n} has returned to its caller but its request id {n} is (still, or again) registered in outgoingCalls: a later EOF/Close completes the finished call a second time, or - the id having been handed to another call - a late answer to c{n} completes that other call"
   | .c01MarshalForeign n => s!"C01: call c{n} ended with a marshalling error although its parameters can be encoded"
   | .c02Twice r => s!"C02: request r{r} answered more than once"
   | .c02NotifAnswered r => s!"C02: notification r{r} received a response"
@@ -163,6 +165,8 @@ def Clause.text : Clause → String
   | .c05OdTwice => "C05: onDone ran more than once"
   | .c05ClosedBusy => "C05: transport closed while requests were still in flight"
   | .c05DoneBusy => "C05: connection done while not idle"
+  | .c05ClosedRunning r => s!"C05: transport closed while the handler of r{r} was still running (Close must let running handlers finish and close the transport only after they have returned)"
+  | .c05DoneRunning r => s!"C05: connection done (Close and Wait return) while the handler of r{r} was still running"
   | .c05LateDispatch r => s!"C05: r{r} was dispatched although it arrived after shutdown began"
   | .c05Stuck impl => "C05: shutdown did not complete (" ++ impl ++ "): a caller, Close or Wait is still blocked or a goroutine is left parked after every handler returned, every write returned and the reader failed"
   | .c02Dropped r => s!"C02: call r{r} whose id was already in flight was dropped without any response"
@@ -202,10 +206,30 @@ def engine : Engine DState where
         | some s => if allFinished s then "clean" else "model-stuck"
       (d, { model := model, violated := (monEndT d.mon (if impl == "clean" then none else some impl)).map Clause.text })
     | "sess" :: _ =>
-      -- stream `sess` (two real sessions, zz_verif_sesslevel_test.go): the session-level monitors of
-      -- C01–C05 are evaluated by the Go harness; the model's observation of every case is "clean"
-      -- and any other text is the violated clause (it starts with the property id).
-      (d, { model := "clean", violated := if impl == "clean" then none else some impl })
+      -- stream `sess` (two real sessions, zz_verif_sesslevel_test.go).  The observation is
+      -- `<verdict of the Go-side monitors> ## <counters of the case>`: the lifecycle clauses of C05 are
+      -- decided HERE by the typed monitor `SessMon.sessMon` on the parsed counters (the harness only
+      -- records them; theorems in SessClose/MonitorProps.lean); the remaining session-level clauses are
+      -- still evaluated by the Go harness and arrive as `<verdict>` ("clean" or the violated clauses).
+      -- The model's observation is "clean" plus the re-rendered counters (a counter the parser drops or
+      -- misreads shows as a difference).
+      match impl.splitOn " ## " with
+      | verdict :: rec :: wires =>
+        -- `wires` = the wire taps of the client and of the server (C02, decided by `SessMon.wireMon`)
+        let taps : Option (List SessMon.WireObs) := wires.mapM SessMon.parseWire
+        match SessMon.parse rec, taps with
+        | some o, some ts =>
+          let pid := ((rec.splitOn " ").filterMap fun t => match t.splitOn "=" with | ["pid", v] => some v | _ => none).headD ""
+          -- the harness reports only the clauses of the property under check (`pid`); so do these monitors
+          let lean5 := if pid == "" || pid == "C05" then (SessMon.sessMon o).map SessMon.SClause.text else []
+          let lean2 := if pid == "" || pid == "C02" then
+              ((ts.zip ["client", "server"]).flatMap fun (t, side) => (SessMon.wireMon t).map (SessMon.WClause.text side)).take 4
+            else []
+          let all := lean5 ++ lean2 ++ (if verdict == "clean" then [] else [verdict])
+          (d, { model := " ## ".intercalate (["clean", SessMon.render o ++ " pid=" ++ pid] ++ ts.map SessMon.renderWire),
+                violated := if all.isEmpty then none else some (" | ".intercalate all) })
+        | _, _ => (d, { model := "clean", violated := some (if verdict == "clean" then "LIBDISC unparsable sess record: " ++ impl else verdict) })
+      | _ => (d, { model := "clean", violated := if impl == "clean" then none else some impl })
     | _ =>
       match parseLabel toks with
       | none => (d, { model := "bad-op" })
